@@ -46,6 +46,23 @@ REGISTRY["C08"] = dict(
     ),
     assumptions=TRUSTED + ["E3 spec table: CSS absolute unit ratios (css-values-4)"],
 )
+REGISTRY["C01"] = dict(
+    module="c01",
+    level="other",
+    technique="static analysis: error-kind typestate over the resolved call graph; predicate-sensitive guard dominance; lexer-progress abstract interpretation of parser loops; reachability of explicit panic macros",
+    claim=(
+        "Four structural clauses, each a necessary condition of totality, decided for all sites of the current tree: (a) only Raw errors can reach SassError::raw(); "
+        "(b) every unit conversion is guarded on every path; (c) every parser loop provably consumes input or exits at end of input, or is reported; "
+        "(d) every todo!/unimplemented!/assert! site is unreachable, guarded, or in the reviewed list. NOT decided: the ~230 unwrap/unreachable!/index sites resting on value invariants, "
+        "stack exhaustion on deep nesting, termination of evaluation/serialisation."
+    ),
+    explanation=(
+        "Clauses C01-a..d of DESIGN.md §3 decided on MIR facts: error kinds are propagated over the call graph from the four From impls to the raw_to_parse_error sites; "
+        "conversion sites are checked by a predicate-sensitive forward analysis; parser loops by a lexer-state abstract interpretation with function summaries; panic-macro sites by call-graph "
+        "reachability plus guard/contradiction arguments. NOT decided: other panic classes (inventoried, unarmed), recursion depth, evaluation termination."
+    ),
+    assumptions=TRUSTED + ["evaluation errors are never swallowed (checked: only Environment::{get_mixin,get_var} match on Err)"],
+)
 
 UNBUILT = "check not built yet in this session (design in DESIGN.md §3); not claimed until its rules run clean on the pinned tree"
 NOT_APPLICABLE = {
